@@ -24,7 +24,7 @@ OPEN = {
 	'C03': 'Stack depth and running time are runtime behaviour: measured (deep inputs under a lowered recursion limit; long runs with hostile tails under a wall-clock budget in a child interpreter), not proved. zlib, email.header.decode_header and the idna codec are outside the model (`needsOracle`); for those inputs only the oracle on the real code speaks.',
 	'C04': 'Responses: one theorem for the whole message (`response_roundtrip`, `response_roundtrip_chunked`), composed of C18 (`response_line_roundtrip`), C08 (`compose_parse_roundtrip`), C05/C14 (`chunkFrame`) and the pipeline theorem of C02. Open: the same for requests (the target passes through URI parse, normalisation, the 301 rule and the Host hooks: each link proved or tied separately, the conjunction decided by the oracle) and for content codings inside the whole-message statement.',
 	'C05': 'Idempotence of prepare() is proved for requests and for responses other than to HEAD (`prepareRequest_idem`, `prepareResponse_idem`); the HEAD exception is finding F46. Non-destructiveness of body sources (file positions, generator buffering) is behaviour of Python objects: decided by repeated composition on the real code.',
-	'C06': 'Relies on C11 (`abspath_clean`, `abspath_fixed`). The statement for every stream and fragmentation is `delivered_requests_sanitised` (`Props/C06Invariant.lean`): an invariant of the loop, by induction over the calls. Host and port (the last clause) are proved per hook (`host_from_header`, `defaults_applied`), not yet as part of the invariant.',
+	'C06': 'Relies on C11 (`abspath_clean`, `abspath_fixed`). The statement for every stream and fragmentation is `delivered_requests_sanitised` (`Props/C06Invariant.lean`): an invariant of the loop, by induction over the calls. Host and port (the last clause) are proved per hook (`host_from_header`, `defaults_applied`), not yet as part of the invariant; what a Host field must look like to get through is `host_alphabet` / `host_no_delimiter` (`Props/C06Host.lean`: an address literal over hex digits, colon, dot - proved through the glibc `inet_pton` transcription - or hostname characters; never a URI delimiter, blank or control character), the character class tied to RE_HOSTNAME of the tree by a 256-entry table. A status raised by parse() ends the history (section 6.2).',
 	'C07': 'The HTTP/1.0 + chunked combination is finding F6. The framing clause holds for every stream and fragmentation on both sides (`delivered_messages_framed`, `Props/C07Invariant.lean`); the trailer clause is proved for the trailer reader (`mergeGo_keeps_unannounced`, `unannounced_trailer_400`), not yet lifted to the loop.',
 	'C08': 'The round-trip clause is a theorem (`compose_parse_roundtrip`, `Proofs/HeadersRoundtrip.lean`) for collections without list-valued fields; those (Set-Cookie, WWW-Authenticate, Proxy-Authenticate) are composed field-specifically and judged by the oracle.',
 	'C09': 'The whole element is a theorem (`element_roundtrip`, `Proofs/ElementRoundtrip.lean`): a value and any number of parameters with pairwise different canonical keys and ASCII values free of double quotes parse back in order; the proof carries quote parity across parameters, so no `;` or `,` inside a quoted value cuts and no parameter merges with its neighbour. The list clause is `list_roundtrip` (split of join gives back the composed elements, each parses to its element). Open as theorems: RFC 2231 continuations and RFC 5987 extended values - tied by correspondence for the four element classes.',
@@ -32,11 +32,11 @@ OPEN = {
 	'C11': 'The RFC clause is a theorem for `abspath()` itself (`abspath_eq_rfc`, `normalize_path_rfc`; `Proofs/Rfc.lean`, `Proofs/RfcAbspath.lean`): the buffer-rewriting loop of RFC 3986 §5.2.4 is shown to be a stack machine on segments, the segment loop of `abspath` (`abspathCore`, whose stack also holds, and may pop, the root segment) is related to it, and the root that the loop may have popped is what `abspath` restores since the F60 repair. Trusted there: the transcription of the RFC text.',
 	'C12': 'Degenerate references ("?", "#", "//", "s:") are outside the quantifier.',
 	'C13': 'The unguarded statement is false of the code (F1); `unquote_quote_fixed` proves it for the `%02X` variant, `c13_witness` exhibits the failure.',
-	'C14': 'zlib itself is a parameter. JSON and message/http: oracle on the real code.',
+	'C14': 'zlib itself is a parameter. JSON and message/http: oracle on the real code. The form codec is the theorem of C13 (`form_roundtrip_partial`, guard F1) and is exercised here through the codec and through Body.encode/decode.',
 	'C15': 'Partial by nature: time zone, DST and locale are runtime environment. The model has no such input (that is the claim); the correspondence runs the real code in child processes under 6 zones × the installed locales and requires the one model answer. The asctime and RFC 850 forms are theorems as well (`asctime_roundtrip`, `rfc850_roundtrip` for the years 1970-2068 a two-digit year can name).',
 	'C16': '',
 	'C17': 'The parameter list of the field round-trips as a theorem (`params_roundtrip`); the dictionary lookups after it are tied by correspondence. Values with comma, quote, backslash: F20c.',
-	'C18': '',
+	'C18': 'The model has no object state: re-parsing into one object is compared step by step with what a fresh object gives (correspondence and oracle).',
 	'C19': 'q texts that float() accepts outside the RFC grammar (`1e3`, `nan`) are outside the model and judged by the oracle.',
 	'C20': 'The float square root in the overlap test is modelled exactly in integers and validated by the correspondence.',
 }
@@ -114,18 +114,37 @@ The file is `known_findings.json`; nothing is added to it at run time.
 
 SEEDS_INTRO = """Each change was written by a fresh sub-agent that saw only the property text and its own scratch worktree, confirmed by
 `tools/confirm_seed.sh` (demonstration passes on the pristine tree, fails with the patch, no new failure in the pinned suite) and stored under
-`seeded/<id>/`. `tools/seedsweep.sh` applies every stored change to /repo's working tree in turn, runs the owning check and undoes it; at the time
-of writing all of them are reported as VIOLATION by the quick tier. Where a check first missed a change it was strengthened (generators, not
-oracles, were the gap every time): C01 boundary mutations (stray CRLF where a start line is expected), C02 narrower F18 guard (pipelined octets
-after a trailer block), C03 work-bound oracle in a child interpreter (catastrophic regex backtracking), C05/C04 text pieces in list bodies,
-C07 fragmentations inside the trailer section, C10 relative references, C14 coded messages from an independent sender (multi-member gzip),
-C12 resolved-twice oracle bug fixed, and the token dictionaries of C03. A second round (seeds `-3`/`-4`, 79 stored in all) added: C02 empty
-trailer values, C06 `*`-prefixed targets, password-only userinfo and CONNECT target variants, C09 narrower F33/F20 classes (a known-finding
-class that was too wide hid a seeded change; the classes now name exactly the values that fail on the pristine tree), C10 hosts with a leading
-digit, C15 comparisons against every operand form (datetime, struct_time, number, text), C05 1xx statuses, C20 body supply modes (written to,
-partly read).
-Three stored patches were rebased after a `fix:` commit touched the same line (C17-1, C03-1; noted in their notes.txt); two stored changes were
-moved to `seeded/rejected/` because a repair made them harmless (C04-2 by F50, C12-1 by F60: their demonstrations pass with the patch applied).
+`seeded/<id>/`. Five rounds, 195 stored changes. `tools/psweep.sh` applies every stored change to a scratch copy of /repo (several in parallel; `tools/seedsweep.sh`
+does the same on /repo's working tree, one at a time), runs the owning check and removes the copy; at the time of writing every stored change is
+reported as VIOLATION by the quick tier of its check, with a failing input replayed on the real code. Where a check first missed a change it was
+strengthened - the generator was the gap nearly every time, an oracle clause a few times; no oracle was loosened:
+
+* round 1/2 (ids -1 .. -4): C01 boundary mutations (stray CRLF where a start line is expected), C02 narrower F18 guard and empty trailer values, C03 work-bound
+  oracle in a child interpreter (catastrophic regex backtracking) and larger token dictionaries, C05/C04 text pieces in list bodies, C05 1xx statuses, C06
+  `*`-prefixed targets, password-only userinfo, CONNECT target variants, C07 fragmentations inside the trailer section, C09 narrower F33/F20 classes (a
+  known-finding class that was too wide hid a change; a failing case inside a class now counts as known only while the pinned model agrees with the code),
+  C10 relative references and hosts with a leading digit, C12 resolved-twice oracle bug, C14 coded messages from an independent sender (multi-member gzip),
+  C15 comparisons against every operand form, C20 body supply modes (written to, partly read).
+* round 3/4 (ids -5 .. -8): C03 payloads that decode to lone surrogates; C04 comparison of the text view of header values, UTF-8-looking Latin-1 values, method
+  letter-case variants; C05 range responses (framing of a 206 and of what is sent instead) and method variants; C06 the Location of the 301 (canonical, equal
+  to the independently computed path, not itself redirected), stray brackets in Host; C09 comma-joined element lists, encoded-word look-alikes, cookie dates,
+  Set-Cookie lists; C11 climbing above the root after an authority, textual form of the normalised URI, IPvFuture hosts; C12 rootless dot paths, `://` later in
+  a reference, authority without host, scheme-only references; C13/C14 BOM-like characters, coded octets handed to Body in every way; C15 datetime / struct_time
+  views and the conditional header elements; C16 an exception escaping the harness is a violation with the input, not a harness error; C17 lax server data
+  with a wrong password; C20 bodies with CRLF lines.
+* round 5 (ids -9, -10 and the last of C04/C11/C12): C01 start lines and header lines that cross 1024 ... 65536 octets cut inside the line (a finite
+  MAX_URI_LENGTH); C03 absolute-form targets over every registered and 60 well-known scheme names (a scheme class without `__slots__`); C04/C05 chunked framing
+  selected through the Transfer-Encoding field, the Body flag, `transfer_encoding = None`, switched between two prepare() calls; C06 what lenient address
+  parsers accept in Host (text after an address, short forms) with the oracle clause that a delivered Host has no URI delimiter, blank or control character
+  (this found F63 on the pristine tree; `host_no_delimiter` is the theorem); C11 URIs put together by attribute assignments in any order (port before scheme,
+  upper-case scheme; `normalize_port_explicit`); C12 segments with an encoded slash in either letter case, judged by segments read off the RFC result without
+  the library's parser; C14 the form codec (was only in C13); C15 the three date forms as values of Last-Modified / If-(Un)Modified-Since; C18 several texts
+  parsed into one Protocol / Status / Method / message object with composing in between (a stale memo); C20 weak and unquoted entity tags, Last-Modified forms.
+
+Stored patches are rebased when a `fix:` commit touches the same lines (noted in their notes.txt). Four changes are kept under `seeded/rejected/` and are not
+counted: C04-2 and C12-1-superseded became harmless through the repairs F50 / F60 (their demonstrations pass with the patch applied); C06-9 and C07-10 show only
+when parse() is called again on a state machine whose previous call raised - outside the properties' quantifier and already undefined on the unchanged tree
+(section 6.2).
 """
 
 if __name__ == '__main__':
